@@ -106,7 +106,7 @@ pub fn shard_run(prop: &str, tier: &str, seed: u64, replay: Option<&serde_json::
         }
         // C18 under overlap: a snapshot upload that must be declined (an older version than the one
         // a concurrent upload stores) must leave the state untouched
-        if prop == "C18" && (!(scn.name.starts_with("SNAP(latest)||SNAP(older)") || scn.name.starts_with("SNAP||SNAP")) || scn.prefix == Prefix::NeverSeen || scn.prefix == Prefix::Empty) {
+        if (prop == "C18" || prop == "C10") && (!(scn.name.starts_with("SNAP(latest)||SNAP(older)") || scn.name.starts_with("SNAP||SNAP")) || scn.prefix == Prefix::NeverSeen || scn.prefix == Prefix::Empty) {
             continue;
         }
         match &replay_scn {
